@@ -4,6 +4,7 @@ import (
 	"bytes"
 	"errors"
 	"fmt"
+	"io"
 	"strings"
 
 	"github.com/Eyevinn/mp4ff/avc"
@@ -42,6 +43,76 @@ type spsSpec struct {
 type listCase struct {
 	Msgs []msgSpec `json:"msgs"`
 	SPS  spsSpec   `json:"sps"`
+	// Src: the io.ReadSeeker ExtractSEIData reads from ("" = bytes.Reader)
+	Src string `json:"src,omitempty"`
+}
+
+// Sources other than a bytes.Reader: all seekable (ExtractSEIData takes an
+// io.ReadSeeker), none with ReadByte.
+type oneByteRS struct{ r io.ReadSeeker }
+
+func (o oneByteRS) Read(p []byte) (int, error) {
+	if len(p) == 0 {
+		return 0, nil
+	}
+	return o.r.Read(p[:1])
+}
+func (o oneByteRS) Seek(off int64, w int) (int64, error) { return o.r.Seek(off, w) }
+
+// eagerEOFRS returns the final bytes together with io.EOF (allowed by io.Reader).
+type eagerEOFRS struct {
+	b   []byte
+	pos int
+}
+
+func (d *eagerEOFRS) Read(p []byte) (int, error) {
+	n := copy(p, d.b[d.pos:])
+	d.pos += n
+	if d.pos >= len(d.b) {
+		return n, io.EOF
+	}
+	return n, nil
+}
+
+func (d *eagerEOFRS) Seek(off int64, w int) (int64, error) {
+	switch w {
+	case io.SeekCurrent:
+		off += int64(d.pos)
+	case io.SeekEnd:
+		off += int64(len(d.b))
+	}
+	if off < 0 || off > int64(len(d.b)) {
+		return 0, io.ErrUnexpectedEOF
+	}
+	d.pos = int(off)
+	return off, nil
+}
+
+// hesitantRS returns (0, nil) on every other call.
+type hesitantRS struct {
+	r   io.ReadSeeker
+	odd bool
+}
+
+func (h *hesitantRS) Read(p []byte) (int, error) {
+	h.odd = !h.odd
+	if h.odd || len(p) == 0 {
+		return 0, nil
+	}
+	return h.r.Read(p)
+}
+func (h *hesitantRS) Seek(off int64, w int) (int64, error) { return h.r.Seek(off, w) }
+
+func newSeekSource(kind string, b []byte) io.ReadSeeker {
+	switch kind {
+	case "one-byte":
+		return oneByteRS{bytes.NewReader(b)}
+	case "data+EOF":
+		return &eagerEOFRS{b: b}
+	case "hesitant":
+		return &hesitantRS{r: bytes.NewReader(b)}
+	}
+	return bytes.NewReader(b)
 }
 
 const (
@@ -106,7 +177,7 @@ func (s *spsSpec) hevcSPS() *hevc.SPS {
 
 // genList draws a message list and the parameter sets to parse it with.
 func genList(r *runner.Rand) *listCase {
-	lc := &listCase{}
+	lc := &listCase{Src: r.PickStr("", "", "one-byte", "data+EOF", "hesitant")}
 	// parameter sets first: type-1 payloads depend on them
 	lc.SPS.AVC = r.PickStr("nil", "nil", "no-vui", "vui", "nal-hrd", "vcl-hrd", "both-hrd")
 	if lc.SPS.hasAVCHRD() {
@@ -354,7 +425,8 @@ func checkList(c *runner.Ctx, lc *listCase) bool {
 	// not mask or fake a parser defect)
 	var datas []sei.SEIData
 	var eerr error
-	pi = c.Guard(func() { datas, eerr = sei.ExtractSEIData(bytes.NewReader(ref)) })
+	c.Seen("extract_source", map[bool]string{true: "bytes.Reader", false: lc.Src}[lc.Src == ""])
+	pi = c.Guard(func() { datas, eerr = sei.ExtractSEIData(newSeekSource(lc.Src, ref)) })
 	switch {
 	case pi != nil:
 		c.Violation(runner.PanicKey("extract/panic", pi), "ExtractSEIData panicked: "+pi.Value, wit)
